@@ -469,7 +469,7 @@ class C10:
             rec.sample({"kind": "roundtrip", "var": "XONSH_HISTORY_SIZE", "value": "(8128, 'commands')"}, "roundtrip")
             return
         saved = dict(os.environ)
-        for i in range(sh["n"]):
+        for i in harness.budgeted(range(sh["n"]), rec):
             case = {"kind": "hist", "rseed": f"{sh['seed']}/C10/{sh['index']}/{i}", "steps": 12, "real": 1 if i < sh["real"] else 0}
             if i < 1:
                 rec.sample(case, "history")
